@@ -118,25 +118,29 @@ mod proofs {
     assert!(got as i64 == want);
   }
 
-  /// C11-3: any `source` string of a transformation: `used_vars` must not panic.
-  #[kani::proof]
-  #[kani::unwind(6)]
-  fn c11_transform_source_total() {
-    // bytes: '$', 'A', 'a', 0xC3 0xA9 (e-acute) as one symbol
-    let n: usize = kani::any();
-    kani::assume(n <= 3);
-    let mut buf = [0u8; 6];
-    let mut len = 0;
+  /// C11-3: any `source` string of a transformation: `used_vars` / `parse` must not panic.
+  /// Lengths are concrete (loop), bytes symbolic over {$, A, a, 0xC3, 0xA9} constrained to
+  /// valid UTF-8 (so `é` can appear anywhere, in particular first).
+  fn source_total(len: usize) {
+    let mut buf = [b'$'; 4];
     let mut i = 0;
-    while i < 3 {
-      if i < n {
+    while i < 4 {
+      if i < len {
         let c: u8 = kani::any();
-        kani::assume(c < 4);
-        match c {
-          0 => { buf[len] = b'$'; len += 1; }
-          1 => { buf[len] = b'A'; len += 1; }
-          2 => { buf[len] = b'a'; len += 1; }
-          _ => { buf[len] = 0xC3; buf[len + 1] = 0xA9; len += 2; }
+        kani::assume(c == b'$' || c == b'A' || c == b'a' || c == 0xC3 || c == 0xA9);
+        buf[i] = c;
+      }
+      i += 1;
+    }
+    // valid UTF-8: C3 is always followed by A9, A9 always preceded by C3
+    let mut i = 0;
+    while i < 4 {
+      if i < len {
+        if buf[i] == 0xC3 {
+          kani::assume(i + 1 < len && buf[i + 1] == 0xA9);
+        }
+        if buf[i] == 0xA9 {
+          kani::assume(i >= 1 && buf[i - 1] == 0xC3);
         }
       }
       i += 1;
@@ -146,9 +150,23 @@ mod proofs {
     let s = as_str(&buf, len);
     let t = substring(s, None, None);
     let v = t.used_vars();
-    kani::cover!(v.len() == 2);
-    kani::cover!(len == 0);
-    let _ = t.parse(&HL('$'));
+    if len == 3 {
+      kani::cover!(v.len() == 2);
+      kani::cover!(v.len() == 0);
+    }
+    let r = t.parse(&HL('$'));
+    std::mem::forget(r);
+    std::mem::forget(t);
+  }
+
+  #[kani::proof]
+  #[kani::unwind(6)]
+  fn c11_transform_source_total() {
+    let mut len = 0;
+    while len <= 3 {
+      source_total(len);
+      len += 1;
+    }
   }
 
   /// C14-1: the id list of a suppression comment
@@ -211,5 +229,69 @@ mod proofs {
       }
       _ => panic!("all-vs-listed disagrees"),
     }
+  }
+}
+
+/// C11 / C07-4 `string_case_split_total`: the word splitter behind `convert` never slices
+/// off a char boundary and returns in-order, non-overlapping pieces of the input.
+#[cfg(kani)]
+mod proofs_case {
+  use crate::common::*;
+  use ast_grep_config::verif_hooks::string_case::split_default;
+
+  /// symbolic text of <= NCH chars over {a, A, _, É (2 bytes)}
+  fn any_text<const NCH: usize, const NB: usize>() -> ([u8; NB], usize) {
+    let mut buf = [0u8; NB];
+    let n: usize = kani::any();
+    kani::assume(n <= NCH);
+    let mut len = 0;
+    let mut i = 0;
+    while i < NCH {
+      if i < n {
+        let c: u8 = kani::any();
+        kani::assume(c < 4);
+        match c {
+          0 => { buf[len] = b'a'; len += 1; }
+          1 => { buf[len] = b'A'; len += 1; }
+          2 => { buf[len] = b'_'; len += 1; }
+          _ => { buf[len] = 0xC3; buf[len + 1] = 0x89; len += 2; }
+        }
+      }
+      i += 1;
+    }
+    (buf, len)
+  }
+
+  fn check<const NCH: usize, const NB: usize>() {
+    let (buf, len) = any_text::<NCH, NB>();
+    let s = as_str(&buf, len);
+    let pieces = split_default(s);
+    // pieces are sub-slices of `s`, in order, non-overlapping, non-empty, on char boundaries
+    let base = s.as_ptr() as usize;
+    let mut prev_end = 0;
+    let mut i = 0;
+    while i < pieces.len() {
+      let p = pieces[i];
+      let start = p.as_ptr() as usize - base;
+      let end = start + p.len();
+      assert!(!p.is_empty() && start >= prev_end && end <= len);
+      assert!(is_boundary(&buf, len, start) && is_boundary(&buf, len, end));
+      prev_end = end;
+      i += 1;
+    }
+    kani::cover!(pieces.len() >= 2);
+    kani::cover!(pieces.len() == 1 && len >= 4);
+    std::mem::forget(pieces);
+  }
+
+  #[kani::proof]
+  #[kani::unwind(8)]
+  fn c11_string_case_split_4ch() {
+    check::<4, 8>();
+  }
+  #[kani::proof]
+  #[kani::unwind(10)]
+  fn c11_string_case_split_5ch() {
+    check::<5, 10>();
   }
 }
